@@ -110,6 +110,18 @@ M = [
  ("MAILA written with the code of MX", D + 'mod.rs', "            QTYPE::MAILA => 254,", "            QTYPE::MAILA => TYPE::MX.into(),", 'untied:codes.question_codes_out'),
  ("MAILB and MAILA codes swapped on the way out", D + 'mod.rs', "            QTYPE::MAILB => 253,\n            QTYPE::MAILA => 254,", "            QTYPE::MAILB => 254,\n            QTYPE::MAILA => 253,", 'fail:question_codes_out'),
  ("QCLASS::ANY written as 254", D + 'mod.rs', "            QCLASS::ANY => 255,", "            QCLASS::ANY => 254,", 'fail:question_codes_out'),
+ ("cache-flush records live two seconds", 'simple-mdns/src/resource_record_manager.rs', "        let ttl = if resource.cache_flush {\n            1\n", "        let ttl = if resource.cache_flush {\n            2\n", 'fail:store_add_source'),
+ ("cached copy replaces the authoritative record", 'simple-mdns/src/resource_record_manager.rs', "                if !matches!(\n                    resources.get(&resource),\n                    Some(ResourceRecordType::Authoritative)\n                ) {\n                    resources.insert(resource, ResourceRecordType::Cached(exp_info));\n                }", "                resources.insert(resource, ResourceRecordType::Cached(exp_info));", 'fail:store_add_source'),
+ ("a cached record still counts at its expiry instant", 'simple-mdns/src/resource_record_manager.rs', "self.cached && exp_info.expire_at > Instant::now()", "self.cached && exp_info.expire_at >= Instant::now()", 'fail:store_filter_source'),
+ ("match_filter looks at the refresh instant", 'simple-mdns/src/resource_record_manager.rs', "self.cached && exp_info.expire_at > Instant::now()", "self.cached && exp_info.refresh_at > Instant::now()", 'fail:store_filter_source'),
+ ("DomainResourceFilter::cached() without subdomains", 'simple-mdns/src/resource_record_manager.rs', "            authoritative: false,\n            subdomain: true,\n            cached: true,", "            authoritative: false,\n            subdomain: false,\n            cached: true,", 'fail:store_filter_source'),
+ ("should_refresh compares the expiry", 'simple-mdns/src/resource_record_manager.rs', "ResourceRecordType::Cached(exp_info) => exp_info.refresh_at < Instant::now(),", "ResourceRecordType::Cached(exp_info) => exp_info.expire_at < Instant::now(),", 'fail:store_filter_source'),
+ ("get_domain_resources keeps empty groups", 'simple-mdns/src/resource_record_manager.rs', "            .filter(|resources| !resources.is_empty())\n", "", 'untied:mdns.store_lookup'),
+ ("get_key from the leaf up", 'simple-mdns/src/resource_record_manager.rs', "        .iter()\n        .rev()\n        .flat_map(|label| {", "        .iter()\n        .flat_map(|label| {", 'untied:mdns.store_add'),
+ ("build_reply answers only the exact name", 'simple-mdns/src/lib.rs', "DomainResourceFilter::authoritative(true))", "DomainResourceFilter::authoritative(false))", 'fail:build_reply_source'),
+ ("build_reply adds A records twice and no AAAA", 'simple-mdns/src/lib.rs', "r.match_qtype(TYPE::AAAA.into())", "r.match_qtype(TYPE::A.into())", 'fail:build_reply_source'),
+ ("build_reply adds addresses of any class", 'simple-mdns/src/lib.rs', "                                && r.match_qclass(question.qclass)\n", "", 'untied:mdns.build_reply'),
+ ("build_reply answers an empty reply", 'simple-mdns/src/lib.rs', "    if !reply_packet.answers.is_empty() {\n        Some((reply_packet, unicast_response))\n    } else {\n        None\n    }", "    Some((reply_packet, unicast_response))", 'untied:mdns.build_reply'),
  ("mdns refresh in millis", 'simple-mdns/src/resource_record_manager.rs', 'added + Duration::from_secs(ttl / 2)', 'added + Duration::from_millis(ttl / 2)', 'untied:mdns.expiration'),
 ]
 
